@@ -15,14 +15,14 @@ PROP = 'C19'
 MANIFEST = dict(
     technique='TLA+ model (FsSem) of backend-independent filesystem semantics and of chains built by add_sys, checked by TLC; every file set of the model materialised on the four real backends and every add_sys transition replayed on a real FileSystemChain; all records validated by TLC (FsSemTrace)',
     category='model_checking',
-    text='FsSem defines existence, look-up and folder walk on file sets keyed by case-folded components (either slash), chain look-up by first member, member-relative de-duplicated walk, and add_sys(priority). TLC checks on all chains of up to 2 (thorough: 3-4) members over file sets of {a/x, a/X, ab/x, a/b/x, x, A/x} x prefixes {"", a, a/b}: walking "" lists everything, every walked name looks up to the listed file, first-member-wins, independence of members lacking the name, priority insertion, and that FileSystemChain\'s way of combining member lists implements the specified walk. Every file set of up to 3 names is built on VirtualFileSystem, ZipFileSystem (in memory), VPKFileSystem (VPK written by the harness\'s own encoder) and RawFileSystem (exact-case spellings only) and queried with all case x separator spellings and folders; file contents are KV1 text carrying a content id, and which file was obtained is observed through every public way of reading (open_bin, open_str, read_kv1, read_prop by name and by File handle, File.open_*, cache_key must not fail) for names and for handles from look-up, walk, repeating walk and iteration - the driver enumerates the public methods reflectively and fails as machinery when one has no probe; every model transition is replayed on a real chain of mixed backends, the prefix of each member given in one of several spellings of the same component sequence (plain, trailing slash, leading dot-slash, doubled separator, backslash; free-form mixes in the random tier), with spies on the members, so that TLC judges each member\'s answers separately from the chain\'s end-to-end result (how and how often the chain consults its members is not compared). The model speaks of symbols (a/A, ab/AB, b/B, x/X equivalent pairs); single-backend family and transitions are replayed under three concretisations, plain ASCII and two whose case folding is not lower-casing (straße/STRASSE, ligature fi, capital final sigma, long s; folder and file names; VPK is ASCII-only by format), and TLC checks every concretisation admissible (injective, symbols equivalent iff texts case-fold equivalent). Seeded random larger file sets, such names in folders and prefixes, deeper prefixes and chains of up to 5 members extend the family.',
+    text='FsSem defines existence, look-up and folder walk on file sets keyed by case-folded components (either slash), chain look-up by first member, member-relative de-duplicated walk, and add_sys(priority). TLC checks on all chains of up to 2 (thorough: 3-4) members over file sets of {a/x, a/X, ab/x, a/b/x, x, A/x} x prefixes {"", a, a/b}: walking "" lists everything, every walked name looks up to the listed file, first-member-wins, independence of members lacking the name, priority insertion, and that FileSystemChain\'s way of combining member lists implements the specified walk. A file set is a container sequence: entries that fold to the same name (another spelling, or one name stored twice) carry different contents and the last one wins in every backend. Every container of the family SeqFamily (up to 3 entries, every order among entries folding alike, repeats; fixtures also with zip directory entries, VPK trailing data, text values and backslash-stored names) is built on VirtualFileSystem, ZipFileSystem (in memory), VPKFileSystem (VPK written by the harness\'s own encoder) and RawFileSystem (exact-case spellings only) and queried with all case x separator spellings and folders; file contents are KV1 text carrying a content id, and which file was obtained is observed through every public way of reading (open_bin, open_str, read_kv1, read_prop by name and by File handle, File.open_*, cache_key must not fail) for names and for handles from look-up, walk, repeating walk and iteration - the driver enumerates the public methods reflectively and fails as machinery when one has no probe; every model transition is replayed on a real chain of mixed backends, the prefix of each member given in one of several spellings of the same component sequence (plain, trailing slash, leading dot-slash, doubled separator, backslash; free-form mixes in the random tier), with spies on the members, so that TLC judges each member\'s answers separately from the chain\'s end-to-end result (how and how often the chain consults its members is not compared). The model speaks of symbols (a/A, ab/AB, b/B, x/X equivalent pairs); single-backend family and transitions are replayed under three concretisations, plain ASCII and two whose case folding is not lower-casing (straße/STRASSE, ligature fi, capital final sigma, long s; folder and file names; VPK is ASCII-only by format), and TLC checks every concretisation admissible (injective, symbols equivalent iff texts case-fold equivalent). Seeded random larger file sets, such names in folders and prefixes, deeper prefixes and chains of up to 5 members extend the family.',
     design_ref='4 (C19)',
     note='The directory backend is bound for exact-case spellings on a case-sensitive filesystem (POSIX). VPK fixtures come from an encoder written from the format description, not from srctools.vpk. Trusts TLC and str.casefold as the fold table.',
 )
 
 MC = {'quick': ['FsSem_mc2.cfg'], 'thorough': ['FsSem_mc2.cfg', 'FsSem_mc3.cfg', 'FsSem_mc4.cfg']}
 EDGES = {'quick': ['FsSem_edges.cfg'], 'thorough': ['FsSem_edges.cfg', 'FsSem_edges3.cfg']}
-SINGLE_MAX = 3
+SINGLE_REP = {'quick': 2, 'thorough': 3}     # SeqFamily(R) of specs/FsSem.tla
 
 
 def sig_of(m: dict) -> dict:
@@ -40,7 +40,9 @@ def sig_of(m: dict) -> dict:
         sig['query'] = call['arg']
         if part == 'walks':
             sig.update(walk_flags(member['backend'], call['arg'], files_of(member['files'])))
+            sig['variant'] = member.get('variant', 'plain')
         else:
+            sig['variant'] = member.get('variant', 'plain')
             sig.update({'backend': member['backend'], 'spelling': 'via-chain', 'backslash': '\\' in call['arg'],
                         'noncanon': noncanon(call['arg'])})
     elif item is not None:
@@ -48,6 +50,7 @@ def sig_of(m: dict) -> dict:
         sig['query'] = text
         sig['action'] = 'walk_folder' if part == 'walks' else 'lookup'
         if rec['k'] == 'fs':
+            sig['variant'] = rec.get('variant', 'plain')
             if part == 'walks':
                 sig.update(walk_flags(rec['backend'], text, files_of(rec['files'])))
             else:
@@ -55,6 +58,7 @@ def sig_of(m: dict) -> dict:
                             'backslash': '\\' in text})
         else:
             sig.update(chain_walk_flags(rec, item) if part == 'walks' else {'backend': 'chain', 'backslash': '\\' in text})
+            sig['bsmembers'] = '+'.join(sorted({m['backend'] for m in rec['members'] if m.get('variant') == 'bs'}))
     else:
         sig['action'] = 'add_sys'
     sig['expected'] = exp.get('want')
@@ -79,7 +83,7 @@ def run(tier: str, seed: int) -> int:
             # 2. drivers that need nothing from TLC
             single = work.path('single.ndjson')
             rnd = work.path('random.ndjson')
-            d1 = ex.submit(core.run_driver, 'c19_driver.py', ['single', SINGLE_MAX, single], env=env)
+            d1 = ex.submit(core.run_driver, 'c19_driver.py', ['single', SINGLE_REP[tier], single], env=env)
             d2 = ex.submit(core.run_driver, 'c19_driver.py', ['random', rnd], env=env)
             # 3. every add_sys transition of the model, replayed on real chains
             edge_files = []
@@ -120,12 +124,13 @@ def run(tier: str, seed: int) -> int:
         if not counts:
             raise MachineryError('FsSem_count.cfg printed no COUNT')
         # (3 concretisations of the symbols; the VPK backend is ASCII-only and takes part in the first)
-        sets = {json.dumps([rec['ci'], sorted(rec['afiles']), rec['backend']]) for rec in core.read_ndjson(single)}
-        want_sets = counts[0]['namesets'] * (4 + 3 + 3)
+        nseq = counts[0][f'seqs{SINGLE_REP[tier]}']
+        sets = {json.dumps([rec['ci'], rec['aseq'], rec['backend']]) for rec in core.read_ndjson(single)}
+        want_sets = nseq * (4 + 3 + 3)
         if len(sets) != want_sets or st1['records'] != len(sets):
-            raise MachineryError(f'coverage handshake failed: {len(sets)} (concretisation, file set, backend) triples logged, '
-                                 f'model has {counts[0]["namesets"]} file sets x (4 + 3 + 3) backends')
-        cov['handshake'] = {'file_sets': counts[0]['namesets'], 'backend_concretisation_pairs': 10, 'model_edges': edge_total}
+            raise MachineryError(f'coverage handshake failed: {len(sets)} (concretisation, container, backend) triples logged, '
+                                 f'model has {nseq} containers x (4 + 3 + 3) backends')
+        cov['handshake'] = {'containers': nseq, 'backend_concretisation_pairs': 10, 'model_edges': edge_total}
         cov['edges_replayed'] = edge_total
         # 4. TLC validates every record
         samples = []
